@@ -11,6 +11,7 @@ mod oracle;
 mod rng;
 mod seq;
 mod special;
+mod trace;
 mod world;
 
 use std::collections::BTreeMap;
@@ -47,6 +48,7 @@ fn main() {
             },
             None => usage(),
         },
+        Some("trace") => trace::check(args.get(1).map(String::as_str).unwrap_or("quick")),
         Some("dev") => dev(&args[1..]),
         Some("min") => {
             let s = std::fs::read_to_string(&args[1]).unwrap();
